@@ -320,6 +320,86 @@ def runOn (w : World) : List (Ord × Nat × Cmd) → World
   | [] => w
   | (ord, i, c) :: cs => runOn (execOn ord w i c).2 cs
 
+/-- `irclib.Irc(network)` (a network is connected later on): its `callbacks` is the default argument,
+the module-level list — list object 0 -/
+def connect (w : World) : World := { w with ref := w.ref ++ [0] }
+
+/-- `irc.die()` → `_reallyDie`: the handle goes away; the last one to go empties the list it shared -/
+def disconnect (w : World) (i : Nat) : World :=
+  let ref' := w.ref.eraseIdx i
+  { heap := if ref'.isEmpty then w.heap.set (w.ref.getD i 0) [] else w.heap, ref := ref' }
+
+inductive NetCmd where
+  | cmd (ord : Ord) (i : Nat) (c : Cmd)
+  | connect
+  | disconnect (i : Nat)
+
+def runNet (w : World) : List NetCmd → World
+  | [] => w
+  | .cmd ord i c :: cs => runNet (execOn ord w i c).2 cs
+  | .connect :: cs => runNet (connect w) cs
+  | .disconnect i :: cs => runNet (disconnect w i) cs
+
+/-! ### command renames (`Owner.rename` / `unrename`, `supybot.commands.renames.<Plugin>`) -/
+
+/-- (plugin, command, new name), in registration order -/
+abbrev Renames := List (Name × Name × Name)
+
+/-- `plugin.renameCommand` for every registered rename of this plugin, as `loadPluginClass` does right
+after the constructor: `none` when one of them cannot be applied (the command is not there any more:
+`getattr` raises; the new name is already an attribute: the assertion fails) -/
+def applyRenames (rn : Renames) (p : Plugin) : Option Plugin :=
+  (rn.filter fun x => x.1 == p.name).foldl
+    (fun acc x =>
+      match acc with
+      | none => none
+      | some q =>
+        if q.commands.contains x.2.1 && !q.commands.contains x.2.2 then
+          some { q with commands := q.commands.map fun c => if c == x.2.1 then x.2.2 else c }
+        else none)
+    (some p)
+
+/-- `Owner.rename <plugin> <command> <new name>` on the registered plugin -/
+def renameCmd (cbs : Cbs) (rn : Renames) (plugin command newName : Name) : Reply × Cbs × Renames :=
+  match getCallback cbs plugin with
+  | none => (.error "invalid plugin", cbs, rn)
+  | some q =>
+    if !q.commands.contains command then (.error "invalid command", cbs, rn)
+    else if q.commands.contains newName then (.error "attribute exists", cbs, rn)
+    else
+      (.success,
+       cbs.map (fun p => if p.name == q.name then
+          { p with commands := p.commands.map fun c => if c == command then newName else c } else p),
+       rn ++ [(q.name, command, newName)])
+
+/-- `load` / `reload` with the registered renames: a rename that no longer applies to the version
+found on disk raises right after the constructor -/
+def withRenames (rn : Renames) (avail : Option Plugin) (f : Faults) : Option Plugin × Faults :=
+  match avail with
+  | none => (none, f)
+  | some p =>
+    match applyRenames rn p with
+    | some p' => (some p', f)
+    | none => (some p, { f with ctorRaises := true })
+
+def loadR (ord : Ord) (b : Bot) (rn : Renames) (name : Name) (avail : Option Plugin) (f : Faults) : Reply × Bot :=
+  loadB ord b name (withRenames rn avail f).1 (withRenames rn avail f).2
+
+def reloadR (ord : Ord) (b : Bot) (rn : Renames) (name : Name) (avail : Option Plugin) (f : Faults) : Reply × Bot :=
+  reloadB ord b name (withRenames rn avail f).1 (withRenames rn avail f).2
+
+/-- `Owner.unrename <plugin>`: drop its renames (an error when it has none), then `reload` it -/
+def unrenameCmd (ord : Ord) (b : Bot) (rn : Renames) (plugin : Name) (avail : Option Plugin) (f : Faults) :
+    Reply × Bot × Renames :=
+  match getCallback b.cbs plugin with
+  | none => (.error "invalid plugin", b, rn)
+  | some q =>
+    if !(rn.any fun x => x.1 == q.name) then (.error "invalid plugin", b, rn)
+    else
+      let rn' := rn.filter fun x => !(x.1 == q.name)
+      let r := reloadR ord b rn' q.name avail f
+      (r.1, r.2, rn')
+
 /-- the commands the dispatcher can route: those of the registered plugins -/
 def answered (cbs : Cbs) : List Name := cbs.flatMap (·.commands)
 
